@@ -299,6 +299,9 @@ _FGEN = ["Piece::get_moves", "Piece::get_pawn_moves", "Piece::get_king_moves", "
 ob("is_targeted_{i}", "chess::verif_chess::inst::is_targeted::sq{i}", ["C01"],
    "forall board, player: is_targeted(sq, player) == spec::attacked(board, sq, other player)", ["Game::is_targeted", "Position::add", "Game::get_position"],
    instances=SQ, timeout=600, mem_est_gb=3)
+for _o in OBS:
+    if _o["name"] in ("push_contract_normal", "roundtrip_castling_short", "roundtrip_enpassant"):
+        _o["props"] = _o["props"] + ["C15"]      # arrayvec push_unchecked / truncate / last().unwrap_unchecked debug assertions and pointer checks
 for _fam, _txt, _n in [("gen_rook", "rook", 6), ("gen_bishop", "bishop", 6), ("gen_queen", "queen", 6), ("gen_knight", "knight", 6),
                        ("gen_pawn", "pawn (incl. double push, promotions, e.p.)", 8), ("gen_king", "king (steps, both castlings vs is_targeted oracle)", 8)]:
     ob(_fam + "_{i}", f"chess::verif_chess::inst::{_fam}::sq{{i}}", ["C01"],
@@ -317,3 +320,60 @@ ob("native_get_moves_matches_spec", "chess::verif_chess::moves::native_get_moves
    "TEST (native, concrete): whole get_moves(true/false) vs spec::legal, successor vs spec::apply, on the six perft roots to depth 2",
    ["Game::get_moves (whole function, concrete inputs)"], backend="native", complete=False, counts_as_proof=False,
    bounded_note="concrete native run of the glue; not a proof")
+
+# =================================================================================================
+# C15 -- unchecked fast paths stay within bounds
+# =================================================================================================
+prop("C15",
+     level="proof",
+     slices=["verif_autoplay_tail", "verif_position_step"],
+     explanation="Every unsafe site gets its safety precondition as a contract, and Kani's own checks (pointer validity / bounds of "
+                 "get_unchecked, arrayvec's and Position's debug assertions) are obligations: Position invariant row,col in 0..8 (Verus on the "
+                 "extracted position.rs functions + Kani on the full i8 domain) => every board/cache index < 64 (set_position contract with its "
+                 "pointer checks); Piece::score / Piece::hash / GameState::hash table reads in bounds on their full domains; set_en_passant keeps "
+                 "the bitfield for the values its call sites pass; the per-ply state stack: push needs len <= 511 -- the self-play loop tail "
+                 "(slice) and the `position` step (slice, guard at 400) are checked against that precondition. The 256-entry move buffer and the "
+                 "search depth bound rest on stated assumptions (A5, A6), not on proof.",
+     assumptions=["A6: positions reachable by legal play have fewer than 256 pseudo-legal moves (literature: 218 legal); imported fantasy positions with many queens are NOT covered",
+                  "A5: search depth + capture extension keeps the state stack below 512 for games the interface accepted (<= 400 entries); not proved (search layer out of reach)",
+                  "inside dependencies (arrayvec, anyhow, std) unsafe code is checked by Kani along executed paths only"],
+     not_machine_checked=["the 256-entry move buffer bound (A6)", "state-stack growth inside the recursive search (A5)"])
+ob("verus_position", None, ["C15"],
+   "Verus (unbounded integers, i8 overflow obligations) on the verbatim text of Position::{new,add,as_usize,row,col}: results valid, as_usize < 64",
+   ["Position::new", "Position::add", "Position::as_usize", "Position::row", "Position::col"], backend="verus", timeout=300)
+for _h, _st in [("position_new_contract", "Position::new is Some exactly on board, all i8 x i8"),
+                ("position_add_contract", "Position::add from a valid square with any non-overflowing delta: Some exactly on board, result valid"),
+                ("position_as_usize_contract", "as_usize == row*8+col < 64 on valid positions"), ("position_consts", "rook-home constants are a1 h1 a8 h8")]:
+    ob(_h, "chess::position::verif_position::" + _h, ["C15", "C01"], _st, ["Position::*"], timeout=120)
+ob("autoplay_tail_respects_stack_capacity", "uci::verif_uci::autoplay_tail_respects_stack_capacity", ["C15"],
+   "slice verif_autoplay_tail vs abstract search / push_history: for a self-play game of any length 1..=512, push_history is reached only with <= 511 state entries",
+   ["autoplay::autoplay (loop tail)"], timeout=300, witness="uci::verif_uci::witness_d5_512_plies_overflow_state_stack")
+
+# =================================================================================================
+# C12 -- move text round-trips; `position ... moves` accepts exactly legal moves
+# =================================================================================================
+prop("C12",
+     level="proof",
+     slices=["verif_position_step"],
+     explanation="Printer: Move::uci_notation == standard long-algebraic text for every move value of every kind. Round trip: for every "
+                 "symbolic position and every acceptable move, from_uci_notation(text(m)) == Some(m) (so texts of distinct legal moves differ). "
+                 "Exactness: for EVERY string of 0..=6 ASCII bytes and every position, if the parser answers Some(m) and m could be a member of "
+                 "the legal list, the string is exactly text(m) -- so no string other than a legal move's text is accepted as that move. "
+                 "Acceptance step (slice of command_position's loop body, against abstract parser / generator / push_history): played iff parsed "
+                 "and member of the CHECKED list, exactly that move, exactly once; otherwise error and nothing played. Membership list == legal "
+                 "moves is C01.",
+     assumptions=["strings longer than 6 bytes: the parser's length test is the same code path as for 6 (read); bytes >= 128 (non-ASCII) not covered by the harness",
+                  "C01 for `checked list == legal moves`", "the loop around the step and the tokenisation are glue"],
+     not_machine_checked=["command_position: tokenisation, `for move_str` header, startpos/fen dispatch"])
+_F12 = ["Move::uci_notation", "Move::from_uci_notation"]
+for _k in ["normal", "promotion", "enpassant", "castling_short", "castling_long"]:
+    ob("c12_print_" + _k, "chess::move_struct::verif_move::c12_print_" + _k, ["C12"], f"uci_notation == standard text, every {_k} move value", _F12, timeout=900)
+    ob("c12_roundtrip_" + _k, "chess::move_struct::verif_move::c12_roundtrip_" + _k, ["C12"],
+       f"forall position, acceptable {_k} move m: from_uci_notation(text(m), g) == Some(m)", _F12, timeout=900)
+for _n in ["4", "5", "6"]:
+    ob(f"c12_exact_{_n}_bytes", f"chess::move_struct::verif_move::c12_exact_{_n}_bytes", ["C12"],
+       f"forall position, forall {_n}-byte ASCII string s: from_uci_notation(s) == Some(m) and m acceptable => s == text(m)", _F12, timeout=900)
+ob("c12_short_strings_rejected", "chess::move_struct::verif_move::c12_short_strings_rejected", ["C12"], "strings of 0..3 bytes are rejected", _F12, timeout=300)
+ob("position_step_contract", "uci::verif_uci::position_step_contract", ["C12", "C15"],
+   "slice verif_position_step vs abstract parser/generator/push_history: played iff parsed and member of the checked list (exactly once, that move); else error, nothing played; length guard at 400",
+   ["uci::command_position (per-move step)"], timeout=900)
